@@ -260,6 +260,22 @@ func init() {
 					}
 				}
 				out = append(out, 0) // no id
+			case 7:
+				// what the user typed after ":open " (bytes): pub.FetchUserInput - "@name" / "!name" go through webfinger first.
+				// result: the string "item" or "failure"
+				bs := r.list()
+				nb := make([]byte, len(bs))
+				for j, x := range bs {
+					nb[j] = byte(x)
+				}
+				got := pub.FetchUserInput(string(nb))
+				ms := int(time.Since(t0) / time.Millisecond)
+				kind := "item"
+				if _, bad := got.(*pub.Failure); bad {
+					kind = "failure"
+				}
+				out = putText(append(out, 0, ms, 3), kind)
+				out = append(out, 0)
 			case 6:
 				// a feed: splicer.NewSplicer over inputs fetched from the simulator, then Harvest through the continuation.
 				// args: ninputs universe indices..., a table (tag, stamp)* read by the model only, amounts
